@@ -482,6 +482,7 @@ LONG_UNITS = [
     ("l-rep", "M0,0", " l1,1"), ("L-rep", "M0,0", " L1,2"), ("h-rep", "M0,0", " h1"), ("c-rep", "M0,0", " c1,1 2,2 3,3"),
     ("s-rep", "M0,0", " s1,1 2,2"), ("q-rep", "M0,0", " q1,1 2,2"), ("t-rep", "M0,0", " t1,1"),
     ("a-rep", "M0,0", " a5,8 30 0 1 7,5"), ("z-rep", "M0,0 l1,1", " z"), ("m-rep", "", "M1,2 "),
+    ("z-bare", "", "z"), ("Z-bare-sp", "", "Z "), ("fragment-l-z", "l1,1", " z"), ("mz-rep", "M1,1", " m1,1 z"),
     ("implicit-l", "M0,0 l", " 1,1"), ("implicit-a", "M0,0 a", " 5,8 30 0 1 7,5"), ("implicit-h", "M0,0 h", " 1"),
     ("digits", "M", "1"), ("spaces", "M1,2", " "), ("commas", "M1,2", ","), ("minus", "M", "-"), ("dots", "M", "."),
     ("1e", "M", "1e"), ("0.", "M", "0."), (".5", "M", ".5"), ("exp", "M1e", "9"), ("zeros", "M0.", "0"),
@@ -540,7 +541,7 @@ class LongInputs(SubCheck):
             prev = (n, calls, cpu)
             # the retained path must be usable (small n only: the post-ops are themselves linear but slow)
             if n <= 1000:
-                usable(svg, p, out, d[:60] + "...", tags)
+                usable(svg, p, out, d[:60] + "...", dict(tags, d=d[:60]))
         out.outcome = tuple((r[0], r[4], r[5]) for r in res)
         out.nontrivial.append(case["family"])
         return out
